@@ -1386,8 +1386,8 @@ def neg_cases(rng) -> list[dict]:
     P, M, A = c['parser'], c['XPathMap'], c['XPathArray']
     out = []
 
-    def add(name, expr, expected, root=None, **variables):
-        out.append({'kind': 'NEG', 'name': name, 'expr': expr, 'expected': expected, '_root': root, '_vars': variables})
+    def add(name, expr, expected, root=None, tags=(), **variables):
+        out.append({'kind': 'NEG', 'name': name, 'expr': expr, 'expected': expected, '_root': root, '_vars': variables, '_tags': list(tags)})
     ser = 'serialize($v, map{"method":"json"})'
     add('nan', ser, 'ERR:SERE0020', v=float('nan'))
     add('inf-in-array', ser, 'ERR:SERE0020', v=A(P, [1, float('-inf')]))
@@ -1434,6 +1434,10 @@ def neg_cases(rng) -> list[dict]:
     add('parse-xml-fragment-doctype', 'parse-xml-fragment($t)', 'ERR:FODC0006', t='<!DOCTYPE a><a/>')
     add('parse-xml-fragment-bad', 'parse-xml-fragment($t)', 'ERR:FODC0006', t='<a><b></a>')
     add('serialize-attribute-node', 'serialize(@x)', 'ERR:SENR0001', root=ep()['ET'].XML('<a x="1"/>'))
+    add('adaptive-nodes', 'serialize((., .), map{"method":"adaptive"})', 's:<a x="1" />\n<a x="1" />', root=ep()['ET'].XML('<a x="1"/>'))
+    add('adaptive-atomic-F17u', 'serialize((1, 2), map{"method":"adaptive"})', 's:1\n2', tags=['F17u'])
+    add('text-method-skips-comments', 'serialize(., map{"method":"text"})', 's:xyzt',
+        root=ep()['ET'].XML('<a>x<!--c-->y<b>z</b>t</a>', ep()['ET'].XMLParser(target=ep()['ET'].TreeBuilder(insert_comments=True))))
     # random truncations: invalid JSON must be FOJS0001 in both readers
     for _ in range(25):
         v = gen_value(rng, 2, ['null', 'bool', 'int', 'float', 'str'])
@@ -1467,7 +1471,7 @@ def check_neg(run: Run, case) -> list[Disagreement]:
     if impl != exp:
         return [Disagreement({'kind': 'NEG', 'name': case['name'], 'expr': case['expr'],
                               'input': {k: canon_result(v) for k, v in case['_vars'].items()}},
-                             json.dumps(impl, default=str), None, spec=json.dumps(exp, default=str),
+                             json.dumps(impl, default=str), None, spec=json.dumps(exp, default=str), tags=case.get('_tags', []),
                              what='error path / option variant: ' + case['name'], site=case['expr'])]
     return []
 
@@ -1565,19 +1569,20 @@ def check_serp(run: Run, case) -> list[Disagreement]:
                 return ''
             return (e.text or '') + ''.join(string_value(ch) + (ch.tail or '') for ch in e)
         sv = string_value(el if step['node'] == 'self' else root)
+        fs = xq('string(%s)' % node_expr, root=rt, _item=it)
+        if fs != sv:
+            return [Disagreement(cj, okcps(fs), None, spec=okcps(sv), what='fn:string(node) = string value in document order',
+                                 site='xpath_nodes string_value / etree_iter_text')]
         if '"method":"text"' in entries:
             st.count('serp:text-method-checked')
             if text != sv:
-                top = el if step['node'] == 'self' else root
-                has_cpi = any(callable(e.tag) for e in top.iter())
-                tags = ['F17w'] if lib == 'etree' and has_cpi else []
-                return [Disagreement(cj, okcps(text), None, spec=okcps(sv), tags=tags, what='serialize(node, method text) = string value of the node',
+                return [Disagreement(cj, okcps(text), None, spec=okcps(sv), what='serialize(node, method text) = string value of the node',
                                      site='serialization.serialize_to_xml method')]
         elif '"method":"adaptive"' in entries:
             xml_text = xq('serialize(%s)' % node_expr, root=rt, _item=it)
             st.count('serp:adaptive-checked')
             if text != xml_text:
-                return [Disagreement(cj, okcps(text), None, spec=okcps(xml_text), tags=['F17u'] if text == '' else [],
+                return [Disagreement(cj, okcps(text), None, spec=okcps(xml_text), 
                                      what='serialize(node, method adaptive) = xml serialization of the node', site='fn:serialize method adaptive')]
         else:
             from html.parser import HTMLParser
